@@ -11,6 +11,8 @@ const TOKENS: &[&[u8]] = &[
     b"<?xml version=\"1.0\"?>", b"<?xml", b"--", b"<:a>", b"<a:>", b"<:>", b"< a>", b"</ a>", b"<a\n>", b"\r\n", b"\t", b"<a/ >",
     b"<?xml version=\"1.0\" encoding=\"\"?>", b"<?xml version=\"1.0\" encoding='8'?>", b"<?xml encoding=\"u\"?>", b"<?xml version=\"\"?>", b"<?xml?>", b"<?xml ?>",
     b"<?xml version=\"1.0\" standalone=\"\"?>", b"<!DOCTYPE>", b"<!DOCTYPE >", b"<!DOCTYPE r [", b"<![CDATA[", b"<!---->", b"<!--->", b"<?>", b"<??>", b"</>", b"<>", b"< >", b"<a a=''/>", b"<a =''/>",
+    b"<!-- a -- b -->", b"<!----------->", b"<!-- x --->", b"<!-- -- -->",
+    b"<b/>", b"<b>", b"</b>", b"<c/>", b"<b x='1'/>",
     b"<1>", b"<->", b"<a..b>", b"<\xD0\xBF>", b"<x a:b:c='1'/>", b"<xmlns:a/>", b"<a xmlns:=''/>", b"]]", b"<![", b"<![CDATA[]]>",
 ];
 
@@ -148,11 +150,16 @@ pub fn hostile(rng: &mut Rng) -> (Vec<u8>, &'static str, Vec<&'static str>) {
             let depth = rng.range(1, 200);
             let same = rng.pct(50);
             let mut v = Vec::new();
+            let sib = rng.pct(40);
             for i in 0..depth {
                 if same {
                     v.extend_from_slice(b"<a>");
                 } else {
                     v.extend_from_slice(format!("<a{i}>").as_bytes());
+                }
+                if sib {
+                    // a second name repeated at every level
+                    v.extend_from_slice(if i % 3 == 0 { b"<s/>" } else { b"<s>t</s>" });
                 }
             }
             let close = match rng.below(4) {
@@ -171,19 +178,52 @@ pub fn hostile(rng: &mut Rng) -> (Vec<u8>, &'static str, Vec<&'static str>) {
             (v, "deep_chain", kinds)
         }
         4 => (base_document(rng), "valid_document", kinds),
+        6 if rng.pct(50) => {
+            // several top-level elements: what into_struct returns, and with which position, depends on their order
+            let n = rng.range(2, 5);
+            let mut v = Vec::new();
+            for _ in 0..n {
+                match rng.below(4) {
+                    0 => v.extend_from_slice(base_document(rng).as_slice()),
+                    1 => v.extend_from_slice(b"<a/>"),
+                    2 => v.extend_from_slice(b"<b><a/></b>"),
+                    _ => v.extend_from_slice(b"<a x='1'>t</a>"),
+                }
+            }
+            (v, "several_top_level_elements", kinds)
+        }
         5 if rng.pct(12) => {
             // large but shallow inputs: very wide parents, very many attributes, very long names
             let mut v = Vec::new();
             match rng.below(4) {
                 0 => {
-                    let n = rng.range(300, 1500);
+                    let n = *rng.pick(&[300usize, 700, 1100, 1500]);
                     let names = rng.range(1, 40);
                     v.extend_from_slice(b"<r>");
+                    let with_content = rng.pct(60);
                     for i in 0..n {
-                        v.extend_from_slice(format!("<c{} a=\"{}\"/>", rng.below(names), i).as_bytes());
+                        let c = rng.below(names);
+                        if with_content && rng.pct(70) {
+                            v.extend_from_slice(format!("<c{c} a=\"{i}\"><k>t</k>x</c{c}>").as_bytes());
+                        } else {
+                            v.extend_from_slice(format!("<c{c} a=\"{i}\"/>").as_bytes());
+                        }
                     }
                     if rng.pct(70) {
                         v.extend_from_slice(b"</r>");
+                    }
+                    if rng.pct(60) {
+                        // damage in the tail: whatever a count-based fast path skips after many occurrences
+                        let from = v.len() - v.len() / 10;
+                        let mut tail = v.split_off(from);
+                        let other = tail.clone();
+                        for _ in 0..rng.range(1, 2) {
+                            let k = mutate_once(rng, &mut tail, &other);
+                            if !kinds.contains(&k) {
+                                kinds.push(k);
+                            }
+                        }
+                        v.extend_from_slice(&tail);
                     }
                 }
                 1 => {
